@@ -12,9 +12,18 @@
    error, CloseAndRepair unless the error is a clean EOF, OpenForWrite.  Recover below is the
    REQUIRED outcome of that protocol.  Impl = "code" switches in the two deviations of wal.go
    found while transcribing it (only used to show that TLC derives them; conformance always
-   compares the real code with Impl = "required"). *)
+   compares the real code with Impl = "required").
+
+   Housekeep is one pass of the writer's ticker goroutine (walWriter.doHousekeeping), the only
+   caller of the rotation in the running system: it looks at the file sizes ON DISK (bytes still
+   in the writer's buffer are invisible to it), rotates when the tail file exceeds FileLimit,
+   otherwise syncs old unsynced data (EagerSync = the configured SyncInterval has elapsed), and
+   then removes whole files from the head while the total seen BEFORE the pass exceeds
+   TotalLimit.  Records in removed files are given up deliberately (`trimmed`): the obligations
+   of C03 are stated for the records that housekeeping has not released.  FileLimit = 0 switches
+   housekeeping off (the configurations of the crash/recovery model proper). *)
 EXTENDS Integers, Sequences, FiniteSets, TLC
-CONSTANTS MaxRecs, Payloads, MaxCrash, MaxSegs, HDR, Impl, MaxOps
+CONSTANTS MaxRecs, Payloads, MaxCrash, MaxSegs, HDR, Impl, MaxOps, FileLimit, TotalLimit, EagerSync
 VARIABLES segs,       \* Seq(Seq(<<rid, pos>>))  bytes appended per segment file
           synced,     \* Seq(Nat)  durable watermark per segment
           plen,       \* Seq(Nat)  payload length of record rid
@@ -23,15 +32,18 @@ VARIABLES segs,       \* Seq(Seq(<<rid, pos>>))  bytes appended per segment file
           crashes,
           logical,    \* rids the log is supposed to hold, in order
           lastRead,   \* result of the last recovery
+          head,       \* index of the oldest segment file that still exists
+          flushed,    \* Seq(Nat)  bytes of each segment that are in the FILE (the rest sits in the writer's buffer)
+          trimmed,    \* rids released by housekeeping
           hist
-vars == <<segs, synced, plen, durable, open, crashes, logical, lastRead, hist>>
+vars == <<segs, synced, plen, durable, open, crashes, logical, lastRead, head, flushed, trimmed, hist>>
 
 nrec == Len(plen)
 Cells(r, p) == [k \in 1..(HDR + p) |-> <<r, k>>]
 TailIdx == Len(segs)
 RECURSIVE Cat(_, _)
 Cat(fs, i) == IF i > Len(fs) THEN <<>> ELSE fs[i] \o Cat(fs, i + 1)
-Stream(fs) == Cat(fs, 1)
+Stream(fs) == Cat(fs, head)
 WholeIn(cs) == {r \in 1..nrec : \A k \in 1..(HDR + plen[r]) : \E i \in 1..Len(cs) : cs[i] = <<r, k>>}
 
 Log(r) == hist' = Append(hist, r)
@@ -39,32 +51,36 @@ Rec(op) == [op |-> op]
 
 Init == /\ segs = << <<>> >> /\ synced = <<0>> /\ plen = <<>> /\ durable = {} /\ open = TRUE
         /\ crashes = 0 /\ logical = <<>> /\ lastRead = <<>> /\ hist = <<>>
+        /\ head = 1 /\ flushed = <<0>> /\ trimmed = {}
 
 Write(p) == /\ open /\ nrec < MaxRecs
             /\ plen' = Append(plen, p)
             /\ segs' = [segs EXCEPT ![TailIdx] = @ \o Cells(nrec + 1, p)]
             /\ logical' = Append(logical, nrec + 1)
             /\ Log([op |-> "write", rid |-> nrec + 1, p |-> p])
-            /\ UNCHANGED <<synced, durable, open, crashes, lastRead>>
+            /\ UNCHANGED <<synced, durable, open, crashes, lastRead, head, flushed, trimmed>>
 Sync == /\ open
         /\ synced' = [synced EXCEPT ![TailIdx] = Len(segs[TailIdx])]
         /\ durable' = durable \cup WholeIn(Stream(segs))
+        /\ flushed' = [flushed EXCEPT ![TailIdx] = Len(segs[TailIdx])]
         /\ Log([op |-> "sync", syncedCells |-> Len(segs[TailIdx])])
-        /\ UNCHANGED <<segs, plen, open, crashes, logical, lastRead>>
+        /\ UNCHANGED <<segs, plen, open, crashes, logical, lastRead, head, trimmed>>
 \* rotation: sync, close the tail file, start the next one
 Shift == /\ open /\ TailIdx < MaxSegs
          /\ synced' = Append([synced EXCEPT ![TailIdx] = Len(segs[TailIdx])], 0)
          /\ durable' = durable \cup WholeIn(Stream(segs))
          /\ segs' = Append(segs, <<>>)
+         /\ flushed' = Append([flushed EXCEPT ![TailIdx] = Len(segs[TailIdx])], 0)
          /\ Log(Rec("shift"))
-         /\ UNCHANGED <<plen, open, crashes, logical, lastRead>>
+         /\ UNCHANGED <<plen, open, crashes, logical, lastRead, head, trimmed>>
 \* graceful close: sync and close
 Close == /\ open
          /\ synced' = [synced EXCEPT ![TailIdx] = Len(segs[TailIdx])]
          /\ durable' = durable \cup WholeIn(Stream(segs))
          /\ open' = FALSE
+         /\ flushed' = [flushed EXCEPT ![TailIdx] = Len(segs[TailIdx])]
          /\ Log(Rec("close"))
-         /\ UNCHANGED <<segs, plen, crashes, logical, lastRead>>
+         /\ UNCHANGED <<segs, plen, crashes, logical, lastRead, head, trimmed>>
 
 \* description of a cut of the tail segment for the driver: how many whole records of the tail
 \* survive and how the next record is torn
@@ -84,7 +100,8 @@ Crash(cut) == /\ open /\ crashes < MaxCrash /\ cut \in synced[TailIdx]..Len(segs
               /\ open' = FALSE /\ crashes' = crashes + 1
               /\ Log([op |-> "crash", cut |-> CutInfo(segs[TailIdx], cut, 0), syncedCells |-> synced[TailIdx],
                       tailRids |-> TailRids(segs[TailIdx])])
-              /\ UNCHANGED <<synced, plen, durable, logical, lastRead>>
+              /\ flushed' = [flushed EXCEPT ![TailIdx] = cut]   \* what survives is in the file
+              /\ UNCHANGED <<synced, plen, durable, logical, lastRead, head, trimmed>>
 
 \* ---- the reader: parse the concatenation of all segment files ----
 \* result of reading one record at offset o of stream s: <<status, rid, nextOffset>>
@@ -119,13 +136,49 @@ Recover ==
   /\ LET res == ReadAll(Stream(segs), 0, <<>>) IN
        /\ lastRead' = res[1]
        /\ logical' = res[1]
-       /\ IF res[2] = "eof" THEN UNCHANGED <<segs, synced>>
-          ELSE LET nf == Trunc(segs, 1, res[3]) IN
+       /\ IF res[2] = "eof" THEN UNCHANGED <<segs, synced, flushed>>
+          ELSE LET nf == SubSeq(segs, 1, head - 1) \o Trunc(segs, head, res[3]) IN
                /\ segs' = nf
                /\ synced' = [i \in 1..Len(nf) |-> IF synced[i] < Len(nf[i]) THEN synced[i] ELSE Len(nf[i])]
+               /\ flushed' = [i \in 1..Len(nf) |-> IF flushed[i] < Len(nf[i]) THEN flushed[i] ELSE Len(nf[i])]
        /\ Log([op |-> "recover", read |-> res[1], ended |-> res[2], durable |-> durable, logical |-> logical])
   /\ open' = TRUE
-  /\ UNCHANGED <<plen, durable, crashes>>
+  /\ UNCHANGED <<plen, durable, crashes, head, trimmed>>
+
+\* ---- housekeeping (walWriter.doHousekeeping) ----
+OnDisk(i) == flushed[i]
+RECURSIVE SumDisk(_, _)
+SumDisk(i, j) == IF i > j THEN 0 ELSE OnDisk(i) + SumDisk(i + 1, j)
+\* the loop `for wi.totalSize > TotalLimit`: the total was measured before the pass, every removal subtracts
+\* the size the file has WHEN it is removed (sz), files up to the old tail are candidates
+RECURSIVE TrimTo(_, _, _, _)
+TrimTo(h, total, last, sz) == IF total > TotalLimit /\ h <= last THEN TrimTo(h + 1, total - sz[h], last, sz) ELSE h
+RidsIn(cs) == {cs[i][1] : i \in 1..Len(cs)}
+Housekeep ==
+  /\ open /\ FileLimit > 0
+  /\ LET total0 == SumDisk(head, TailIdx)
+         rotate == OnDisk(TailIdx) > FileLimit
+         dosync == ~rotate /\ EagerSync /\ flushed[TailIdx] < Len(segs[TailIdx])
+         oldTail == TailIdx
+         full == [flushed EXCEPT ![TailIdx] = Len(segs[TailIdx])]
+         sz == IF rotate \/ dosync THEN full ELSE flushed
+         nh == TrimTo(head, total0, oldTail, sz)
+         gone == UNION {RidsIn(segs[i]) : i \in head..(nh - 1)}
+     IN /\ rotate => TailIdx < MaxSegs
+        /\ segs' = [i \in 1..(IF rotate THEN Len(segs) + 1 ELSE Len(segs)) |->
+                      IF i > Len(segs) THEN <<>> ELSE IF i >= head /\ i < nh THEN <<>> ELSE segs[i]]
+        /\ flushed' = [i \in 1..Len(segs') |-> IF i > Len(segs) THEN 0 ELSE IF i >= head /\ i < nh THEN 0 ELSE sz[i]]
+        /\ synced' = [i \in 1..Len(segs') |-> IF i > Len(segs) THEN 0 ELSE IF i >= head /\ i < nh THEN 0
+                                                ELSE IF (rotate \/ dosync) /\ i = oldTail THEN Len(segs[i]) ELSE synced[i]]
+        /\ head' = nh
+        /\ trimmed' = trimmed \cup gone
+        /\ durable' = (IF rotate \/ dosync THEN durable \cup WholeIn(Stream(segs)) ELSE durable) \ gone
+        /\ logical' = SelectSeq(logical, LAMBDA r : r \notin gone)
+        /\ Log([op |-> "housekeep", rotate |-> rotate, synced |-> dosync, head |-> nh, tail |-> Len(segs'),
+                files |-> [i \in 1..(Len(segs') - nh + 1) |-> flushed'[nh + i - 1]],
+                fileLimit |-> FileLimit, totalLimit |-> TotalLimit, eager |-> EagerSync,
+                hkDurable |-> durable'])
+  /\ UNCHANGED <<plen, open, crashes, lastRead>>
 
 Can == Len(hist) < MaxOps
 Next == \/ \E p \in Payloads : Can /\ Write(p)
@@ -134,6 +187,7 @@ Next == \/ \E p \in Payloads : Can /\ Write(p)
         \/ Can /\ Close
         \/ \E c \in 0..(MaxRecs * (HDR + 3)) : Can /\ Crash(c)
         \/ Can /\ Recover
+        \/ Can /\ Housekeep
 Spec == Init /\ [][Next]_vars
 
 ----------------------------------------------------------------------------
@@ -146,6 +200,17 @@ DurableSurvive == [][Recovering => durable \subseteq Range(lastRead')]_vars
 PrefixOnly == [][Recovering => IsPrefix(lastRead', logical)]_vars
 \* after a recovery the files hold exactly the returned records, so that appended records stay readable
 CleanAfterRecover == [][Recovering => (LET res == ReadAll(Stream(segs'), 0, <<>>) IN res[2] = "eof" /\ res[1] = lastRead')]_vars
-TypeOK == /\ Len(segs) = Len(synced) /\ Len(segs) >= 1
-          /\ \A i \in 1..Len(segs) : synced[i] <= Len(segs[i])
+TypeOK == /\ Len(segs) = Len(synced) /\ Len(segs) >= 1 /\ Len(flushed) = Len(segs)
+          /\ \A i \in 1..Len(segs) : synced[i] <= Len(segs[i]) /\ flushed[i] <= Len(segs[i])
+          /\ head \in 1..Len(segs)
+\* housekeeping never touches the tail file, gives up only records that are completely in removed (closed,
+\* synced) files, and never more files than the measured total requires
+HkStep == hist' # hist /\ hist'[Len(hist')].op = "housekeep"
+HkKeepsTail == [][HkStep => head' <= Len(segs') /\ (Len(segs') = Len(segs) => segs'[Len(segs)] = segs[Len(segs)])]_vars
+HkReleasesOnlyWhole == [][HkStep => (trimmed' \ trimmed) \subseteq WholeIn(Stream(segs))]_vars
+\* NOT a property of the design (TLC: write, write, write, sync, write, Housekeep with the tail alone above TotalLimit):
+\* a pass may release the NEWEST durable records when more than TotalLimit bytes were appended between two passes.
+\* With the engine's limits (round WAL 1.5 MiB, one pass per second) this is out of reach; recorded, not claimed.
+HkKeepsNewest == [][HkStep => (logical # <<>> => logical[Len(logical)] \notin trimmed')]_vars
+HkMinimal == [][HkStep => (head' > head => SumDisk(head, Len(segs)) > TotalLimit)]_vars
 =============================================================================
